@@ -19,6 +19,7 @@ import (
 	bifrost_http "github.com/aperturerobotics/bifrost/http"
 	bifrost_rpc "github.com/aperturerobotics/bifrost/rpc"
 	bifrost_rpc_access "github.com/aperturerobotics/bifrost/rpc/access"
+	"github.com/aperturerobotics/bifrost/testbed"
 	"github.com/aperturerobotics/controllerbus/bus"
 	"github.com/aperturerobotics/controllerbus/controller"
 	"github.com/aperturerobotics/controllerbus/directive"
@@ -332,6 +333,9 @@ func c35(c *hx.Ctx) {
 			}
 		}
 	}
+	// ---- overlapping lookups on a real bus: a lookup must be answered for ITS path even while a
+	// lookup for another path is alive (the bus de-duplicates equivalent directives) ----
+	overlappingLookups(c)
 	// ---- MatchServeMuxPattern: which method reaches the mux ----
 	mux := http.NewServeMux()
 	for _, m := range []string{"GET", "POST", "OPTIONS", "PUT", "DELETE", "HEAD"} {
@@ -346,6 +350,128 @@ func c35(c *hx.Ctx) {
 		}
 		c.Class("mux")
 		c.Case(hx.App("Mux", hx.Str(m), hx.Str(saw)), desc)
+	}
+}
+
+type namedHandler struct {
+	name string
+	mtx  sync.Mutex
+	saw  []string
+}
+
+func (h *namedHandler) ServeHTTP(w http.ResponseWriter, req *http.Request) {
+	h.mtx.Lock()
+	h.saw = append(h.saw, h.name+":"+req.URL.Path)
+	h.mtx.Unlock()
+}
+
+// overlappingLookups registers three handler controllers on a real controller bus and issues, for
+// every ordered pair of distinct request URLs, a second LookupHTTPHandler while the first is still
+// referenced; the second must be served exactly as the configuration says for ITS url.
+func overlappingLookups(c *hx.Ctx) {
+	ctx, cancel := context.WithTimeout(context.Background(), 60*time.Second)
+	defer cancel()
+	tb, err := testbed.NewTestbed(ctx, fk.Logger(), testbed.TestbedOpts{NoEcho: true, NoPeer: true})
+	if err != nil {
+		panic(err)
+	}
+	defer tb.Release()
+	type reg struct {
+		name, prefix string
+		strip        bool
+		h            *namedHandler
+	}
+	regs := []*reg{{name: "A", prefix: "/a", strip: true}, {name: "B", prefix: "/b", strip: true}, {name: "C", prefix: "/ab", strip: false}}
+	var saw []string
+	var smtx sync.Mutex
+	for _, r := range regs {
+		r.h = &namedHandler{name: r.name}
+		ctrl := bifrost_http.NewHTTPHandlerController(
+			controller.NewInfo("verif/http/"+r.name, semver.MustParse("0.0.1"), "verif"),
+			bifrost_http.NewHTTPHandlerBuilder(r.h), []string{r.prefix}, r.strip, nil)
+		rel, err := tb.Bus.AddController(ctx, ctrl, nil)
+		if err != nil {
+			panic(err)
+		}
+		defer rel()
+	}
+	_ = saw
+	_ = &smtx
+	// expected (handler, path seen) set for a request path, from the registrations alone
+	expect := func(p string) []string {
+		var out []string
+		for _, r := range regs {
+			if strings.HasPrefix(p, r.prefix) {
+				seen := p
+				if r.strip {
+					seen = p[len(r.prefix):]
+				}
+				out = append(out, r.name+":"+seen)
+			}
+		}
+		slices.Sort(out)
+		return out
+	}
+	serveAll := func(vals []bifrost_http.LookupHTTPHandlerValue, u *url.URL) []string {
+		for _, r := range regs {
+			r.h.mtx.Lock()
+			r.h.saw = nil
+			r.h.mtx.Unlock()
+		}
+		for _, v := range vals {
+			req := httptest.NewRequest("GET", "http://x/", nil)
+			req.URL = &url.URL{Path: u.Path, RawQuery: u.RawQuery}
+			v.ServeHTTP(httptest.NewRecorder(), req)
+		}
+		var out []string
+		for _, r := range regs {
+			r.h.mtx.Lock()
+			out = append(out, r.h.saw...)
+			r.h.mtx.Unlock()
+		}
+		slices.Sort(out)
+		return out
+	}
+	urls := []string{"/a/x", "/b/x", "/a/y", "/c/x", "/ab/x", "/a", "/b", "/a/x?q=1", "http://h/a/x", "http://g/a/x", "/b/x?q=1"}
+	for _, s1 := range urls {
+		for _, s2 := range urls {
+			if s1 == s2 {
+				continue
+			}
+			u1, _ := url.Parse(s1)
+			u2, _ := url.Parse(s2)
+			desc := map[string]any{"ctrl": "http-overlapping-lookups", "first_lookup": s1, "second_lookup": s2, "registrations": "A{/a strip} B{/b strip} C{/ab}"}
+			c.Eval()
+			c.Class("http-overlap")
+			// the directive identity the bus de-duplicates on
+			d1 := bifrost_http.NewLookupHTTPHandler("GET", u1, "")
+			d2 := bifrost_http.NewLookupHTTPHandler("GET", u2, "")
+			if eq := d2.(directive.DirectiveWithEquiv).IsEquivalent(d1); eq && u1.String() != u2.String() {
+				c.Failf("http-lookup-merges-different-urls", desc, "LookupHTTPHandler(%s).IsEquivalent(LookupHTTPHandler(%s)) = true: a lookup for %s would be folded into the running lookup for %s", s2, s1, s2, s1)
+			}
+			vals1, _, ref1, err := bifrost_http.ExLookupHTTPHandlers(ctx, tb.Bus, "GET", u1, "", false)
+			if err != nil {
+				panic(err)
+			}
+			vals2, _, ref2, err := bifrost_http.ExLookupHTTPHandlers(ctx, tb.Bus, "GET", u2, "", false)
+			if err != nil {
+				panic(err)
+			}
+			got1, got2 := serveAll(vals1, u1), serveAll(vals2, u2)
+			desc["second_lookup_served_by"] = got2
+			if want := expect(u1.Path); !slices.Equal(got1, want) {
+				c.Failf("http-lookup-wrong-handler", desc, "lookup for %s was served by %v, the registrations require %v", s1, got1, want)
+			}
+			if want := expect(u2.Path); !slices.Equal(got2, want) {
+				c.Failf("http-overlapping-lookup-wrong-handler", desc, "lookup for %s issued while the lookup for %s was alive was served by %v (handler:path seen), the registrations require %v", s2, s1, got2, want)
+			}
+			if ref1 != nil {
+				ref1.Release()
+			}
+			if ref2 != nil {
+				ref2.Release()
+			}
+		}
 	}
 }
 
